@@ -143,9 +143,10 @@ def enc_input(num, parser, text):
 
 # ---- trees -------------------------------------------------------------
 
-def tree_sexp(num, n):
+def tree_sexp(num, n, via_children=False):
     """Canonical s-expression of an implementation parse tree (LR build_tree
-    nodes, GLR Tree/LazyTree proxies). Iterative: trees can be thousands of levels deep."""
+    nodes, GLR Tree/LazyTree proxies). Iterative: trees can be thousands of levels deep.
+    `via_children`: walk through the `.children` attribute instead of iterating the node."""
     out = []
     # stack of (node, state): state 0 = open, 1 = close
     stack = [(n, 0)]
@@ -159,7 +160,14 @@ def tree_sexp(num, n):
             continue
         out.append(" (N %d %s %s" % (x.production.prod_id, x.start_position, x.end_position))
         stack.append((x, 1))
-        for c in reversed(list(x)):
+        if via_children:
+            kids = x.children
+            if kids is None:
+                out.append(" <children=None>")
+                kids = []
+        else:
+            kids = list(x)
+        for c in reversed(list(kids)):
             stack.append((c, 0))
     return "".join(out)[1:]
 
